@@ -2,6 +2,7 @@
    bool/option/unit/list/prod/sumbool/sumor mapped to OCaml's, andb/orb inlined;
    N, Z, positive, nat stay the extracted inductive types. *)
 From Coq Require Extraction ExtrOcamlBasic.
-From Avfs Require Import Base MemIdm.
+From Avfs Require Import Base MemIdm Copy.
 Extraction Language OCaml.
-Extraction "model.ml" idm_init idm_run ref_init ref_run crun.
+Extraction "model.ml" idm_init idm_run ref_init ref_run crun
+  copy_transcript hash_transcript.
